@@ -885,6 +885,42 @@ pub fn o_gc_e2e() {
     core::mem::forget(fs);
 }
 
+/// smaller end-to-end collector instances (two stored frames + the real head:1 append + the real
+/// worker). SECOND = "ab": the prefix-related topic must survive; SECOND = "a": both older frames of
+/// the topic must go, not just one.
+pub fn o_gc_e2e2<const PREFIX: bool>() {
+    env::reset_all();
+    env::fjall::set_limit(3);
+    let sut = mk_store(2);
+    let t = 1000u128 << 80;
+    let f1 = mk_frame("a".to_string(), 0, t + 1, None);
+    let f2 = mk_frame(if PREFIX { "ab".to_string() } else { "a".to_string() }, 0, t + 2, None);
+    install_one(&f1);
+    install_one(&f2);
+    env::trace::reset();
+    env::scru::force_next(t + 4);
+    let r = sut.store.append(mk_frame("a".to_string(), 0, 0, Some(TTL::Head(1))));
+    hx_check!(r.is_ok(), "append succeeds");
+    gc_drain(&sut);
+    let a1 = sut.store.get(&sid(t + 1));
+    let x2 = sut.store.get(&sid(t + 2));
+    let a4 = sut.store.get(&sid(t + 4));
+    hx_check!(a1.is_none() && a4.is_some(), "C09 after the collector drained, a head:K topic holds its K newest frames and nothing older");
+    if PREFIX {
+        hx_check!(x2.is_some(), "C08 garbage collection of one topic never touches a prefix-related topic");
+    } else {
+        hx_check!(x2.is_none(), "C09 after the collector drained, every frame of the topic outside the K newest is gone - not just one");
+    }
+    hx_cover!(true, "reached");
+    core::mem::forget(a1);
+    core::mem::forget(x2);
+    core::mem::forget(a4);
+    core::mem::forget(r);
+    core::mem::forget(sut);
+    core::mem::forget(f1);
+    core::mem::forget(f2);
+}
+
 /// C01/C08/C09: read_sync over [time:T frame, plain frame] (ids, contexts, topic bytes, T and the
 /// clock symbolic): the time:T frame is dropped exactly when expired, *before* the limit is
 /// applied, and a Remove is queued for it and only for it.
@@ -917,6 +953,35 @@ pub fn o_read_sync_k<const L: usize>() {
     hx_cover!(!exp && now > 0 && ms > 1000, "a long ttl not yet elapsed");
     core::mem::forget(sut);
     core::mem::forget(g);
+}
+
+/// the same with concrete bytes and instantiated cases (the symbolic variant above does not fit in
+/// 40 GB): a `time:10` frame stamped at 1000 ms followed by a plain frame; clock before / after the
+/// deadline (EXPIRED), limit 1 or none (LIMIT1).
+pub fn o_read_sync_c<const EXPIRED: bool, const LIMIT1: bool>() {
+    env::reset_all();
+    env::fjall::set_limit(2);
+    let sut = mk_store(2);
+    let id0 = 1000u128 << 80;
+    let id1 = (1001u128 << 80) | 5;
+    let f0 = mk_frame("a".to_string(), 0, id0, Some(TTL::Time(Duration::from_millis(10))));
+    let f1 = mk_frame("a".to_string(), 0, id1, None);
+    install_one(&f0);
+    install_one(&f1);
+    env::trace::reset();
+    env::stdm::time::set_clock(if EXPIRED { 1010 } else { 1009 });
+    let (got, n, more) = {
+        let mut it = sut.store.read_sync(None, if LIMIT1 { Some(1) } else { None }, None);
+        take_ids::<2>(&mut it)
+    };
+    let want0 = if EXPIRED { id1 } else { id0 };
+    let want_n = if EXPIRED || LIMIT1 { 1 } else { 2 };
+    hx_check!(!more && n == want_n && got[0] == want0 && (n < 2 || got[1] == id1), "C01 read_sync returns the first `limit` of the non-expired frames (filter, then take); C09 an expired time:N frame is never returned");
+    hx_check!(sut.gc_rx.model_len() == if EXPIRED { 1 } else { 0 }, "C08 a Remove is queued only for a frame whose time:N ttl has elapsed");
+    hx_cover!(true, "reached");
+    core::mem::forget(sut);
+    core::mem::forget(f0);
+    core::mem::forget(f1);
 }
 
 /// C04/C05: remove(id) for an arbitrary id over a symbolic N-frame state: effect shape and
@@ -1004,6 +1069,38 @@ pub fn o_reimport_amend<const L: usize>() {
     core::mem::forget(f2);
 }
 
+/// the same with concrete bytes (the symbolic variant needs > 25 GB once `insert_frame` does more
+/// than three writes)
+pub fn o_reimport_amend_c() {
+    env::reset_all();
+    env::fjall::set_limit(3);
+    let sut = mk_store(2);
+    let t = 1000u128 << 80;
+    let older = mk_frame("a".to_string(), 0, t + 1, None);
+    let f = mk_frame("a".to_string(), 0, t + 2, None);
+    install_one(&older);
+    install_one(&f);
+    env::trace::reset();
+    let f2 = mk_frame("a".to_string(), 0, t + 2, Some(TTL::Forever));
+    let r2 = sut.store.insert_frame(&f2);
+    hx_check!(r2.is_ok(), "C20 re-import is accepted");
+    let (cids, n_ctx, more_ctx) = {
+        let mut it = sut.store.iter_frames(Some(ZERO_CONTEXT), None);
+        take_ids::<3>(&mut *it)
+    };
+    hx_check!(n_ctx == 2 && !more_ctx && cids[1] == t + 2, "C05 a re-imported frame is still in its own context's stream, once");
+    let h = sut.store.head("a", ZERO_CONTEXT).map(|x| x.id);
+    hx_check!(h == Some(sid(t + 2)), "C05 a re-imported frame is still the head of its topic");
+    let back = sut.store.get(&sid(t + 2));
+    hx_check!(matches!(&back, Some(x) if matches!(x.ttl, Some(TTL::Forever))), "C20 a re-imported frame is stored as given");
+    hx_cover!(true, "reached");
+    core::mem::forget(back);
+    core::mem::forget(sut);
+    core::mem::forget(older);
+    core::mem::forget(f);
+    core::mem::forget(f2);
+}
+
 /// C20: importing the identical frame again changes nothing (one stream entry, same lookup).
 pub fn o_reimport_k<const L: usize>() {
     env::reset_all();
@@ -1071,7 +1168,14 @@ crate::scenarios! {
     o_gc_task_2_1_2 => o_gc_task::<2, 1, 2>();
     o_gc_e2e_all => o_gc_e2e();
     o_gc_then_remove_all => o_gc_then_remove();
+    o_gc_e2e2_prefix => o_gc_e2e2::<true>();
+    o_gc_e2e2_two => o_gc_e2e2::<false>();
     o_reimport_amend_1 => o_reimport_amend::<1>();
+    o_reimport_amend_c => o_reimport_amend_c();
+    o_read_sync_c_exp_lim => o_read_sync_c::<true, true>();
+    o_read_sync_c_exp_all => o_read_sync_c::<true, false>();
+    o_read_sync_c_live_lim => o_read_sync_c::<false, true>();
+    o_read_sync_c_live_all => o_read_sync_c::<false, false>();
     o_read_sync_k_1 => o_read_sync_k::<1>();
     o_read_sync_k_0 => o_read_sync_k::<0>();
     o_remove_k_1_1 => o_remove_k::<1, 1>();
